@@ -390,6 +390,21 @@ def run_config(args):
             if detail:
                 status = "mismatch"
             out.append((idx, ci, call, status, detail, nread, compact, note))
+        if nout == -1 and idx % 4 == 1 and (kinds is None or "full" in kinds):
+            # a newer output appears in the same directory (the run goes on): -1 now means that one
+            other = next(u for u in ramses_cfg.UNITS if list(u) != list(cfg["units"]))
+            cfg2 = dict(cfg, nout=cfg["nout"] + 1, units=list(other))
+            call = cfg["calls"][0]
+            try:
+                ramses_pack.materialise(cfg2, lay, d)
+                with contextlib.redirect_stdout(io.StringIO()):
+                    ds = osyris.RamsesDataset(-1, path=d).load()
+                detail = compare_dataset(cfg2, lay, call, ds)
+                if detail:
+                    detail = "after a newer output appeared in the directory, nout=-1: " + detail
+            except Exception as e:
+                detail = f"after a newer output appeared in the directory, load raised {type(e).__name__}: {e}"
+            out.append((idx, len(cfg["calls"]), dict(call, form="newer-output"), "mismatch" if detail else "match", detail, 0, None, None))
     finally:
         shutil.rmtree(d, ignore_errors=True)
     return out
@@ -488,6 +503,9 @@ def replay(rep, rec):
     cfg = rec["case"]["cfg"]
     lays = tlc_layouts(common.Report(rep.pid, rep.tier, rep.seed), [cfg], "replay")
     ci = rec["case"]["call_index"]
+    if ci >= len(cfg["calls"]):
+        print("replay: the 'newer output' step is re-run by ./check C01 (it follows the calls of this configuration); the full call is replayed here")
+        ci = 0
     c2 = dict(cfg, calls=[cfg["calls"][ci]])
     import osyris  # noqa
     res = run_config((2, c2, lays[0], None, True))
